@@ -45,6 +45,15 @@ def gen_proxy_cfg(rng):
     prefix = rng.choice(["/", "/api", "/api/", "/a", "/mirror/", "", "/api/v1", "/%41"])
     return up, prefix, rng.random() < 0.6
 
+def wire_path_query(line):
+    """path and query of the request line as the CLIENT wrote them (RFC 3986 syntax: authority ends at the first '/', '?' or '#';
+    the query runs from the first '?' to '#') - not read back from the parser under test"""
+    rest = line.split("://", 1)[1]
+    cut = min([rest.index(c) for c in "/?#" if c in rest] or [len(rest)])
+    after = rest[cut:].split("#", 1)[0]
+    path, _, query = after.partition("?")
+    return (path or "/"), query
+
 def gen_request(rng, prefix):
     k = rng.random()
     host = rng.choice(["front.example", "EVIL.example:1966", "[::1]", "h"])
@@ -90,7 +99,8 @@ def run(tier, seed):
             except ValueError:
                 continue
             urls, conns, resp = await proxied(loop, h, req)
-            records.append((key, req.path, req.query, line, urls, conns, resp, list(urlimpl._calls)))
+            wp, wq = wire_path_query(line)
+            records.append((key, wp, wq, line, urls, conns, resp, list(urlimpl._calls)))
     asyncio.run(go())
     mcases, iobs, mon, meta = [], [], [], []
     for key, path, query, line, urls, conns, resp, calls in records:
@@ -168,7 +178,8 @@ def run(tier, seed):
                     line = gen_request(rng, loc_pick.prefix)
                     try: req = GeminiRequest.from_line(line)
                     except ValueError: continue
-                    first = next((l for l in locs if req.path.startswith(l._as_written[1])), None)
+                    wp, wq = wire_path_query(line)
+                    first = next((l for l in locs if wp.startswith(l._as_written[1])), None)
                     if first is None: continue
                     conns = []
                     async def fake_cc(factory, host=None, port=None, ssl=None, server_hostname=None, **kw):
@@ -187,7 +198,7 @@ def run(tier, seed):
                         r = None
                     finally:
                         del loop.create_connection
-                    lrecords.append((first._as_written, [l._as_written for l in locs], req.path, req.query, line, conns, list(urlimpl._calls)))
+                    lrecords.append((first._as_written, [l._as_written for l in locs], wp, wq, line, conns, list(urlimpl._calls)))
         finally:
             shutil.rmtree(docroot, ignore_errors=True)
     asyncio.run(go_locations())
